@@ -118,3 +118,29 @@ func String(ss []Series, withTS bool) string {
 	}
 	return b.String()
 }
+
+// Recorder is a PipelineHandler that records what reaches it.
+type Recorder struct {
+	Maps   []*gostatsd.MetricMap
+	Events []*gostatsd.Event
+}
+
+func (r *Recorder) EstimatedTags() int { return 0 }
+func (r *Recorder) DispatchMetricMap(ctx context.Context, mm *gostatsd.MetricMap) {
+	r.Maps = append(r.Maps, mm)
+}
+func (r *Recorder) DispatchEvent(ctx context.Context, e *gostatsd.Event) {
+	r.Events = append(r.Events, e)
+}
+func (r *Recorder) WaitForEvents() {}
+func (r *Recorder) Reset()         { r.Maps, r.Events = r.Maps[:0], r.Events[:0] }
+
+// NumDatapoints counts the datapoints held by the recorded maps (counter/gauge = 1 per series
+// occurrence is not recoverable, so this counts series entries).
+func (r *Recorder) Series() int {
+	n := 0
+	for _, mm := range r.Maps {
+		n += len(Snapshot(mm))
+	}
+	return n
+}
